@@ -185,7 +185,7 @@ func GenerateSupport(harnessDir, genDir string, obls []Obligation) error {
 }
 
 // WriteOverlayJSON writes a go build -overlay file for native replay.
-func WriteOverlayJSON(repo string, dirs []string, out string) error {
+func WriteOverlayJSON(repo string, dirs []string, out string, extra map[string]string) error {
 	ov, _, err := buildOverlayMulti(repo, dirs, true)
 	if err != nil {
 		return err
@@ -215,6 +215,9 @@ func WriteOverlayJSON(repo string, dirs []string, out string) error {
 			}
 		}
 		rep[virt] = real
+	}
+	for k, v := range extra {
+		rep[k] = v
 	}
 	b, _ := json.MarshalIndent(map[string]interface{}{"Replace": rep}, "", " ")
 	return os.WriteFile(out, b, 0o644)
